@@ -169,6 +169,40 @@ func (n *node) checkBlock(height int64, kind string) {
 	}
 }
 
+// tryDuplicatedTail: CVE-2012-2459 on a node. For a minted (not yet delivered) block b whose tx count n is
+// not a power of two, the block b' = b with the last lowbit(n) transactions repeated has the same TxHash.
+// Computation's mutated flag is not consulted anywhere on the validation path; what must reject b' is the
+// duplicate-transaction check of PreExecBlock (ErrTxDup). If the node accepts b', that is a violation.
+func (n *node) tryDuplicatedTail(b *types.Block) {
+	cnt := len(b.Txs)
+	if cnt < 3 || cnt&(cnt-1) == 0 || !isSorted(b.Txs) || titleOf(b.Txs[0]) != titleOf(b.Txs[cnt-1]) {
+		return
+	}
+	k := cnt & -cnt
+	d := types.Clone(b).(*types.Block)
+	for _, tx := range b.Txs[cnt-k:] {
+		d.Txs = append(d.Txs, tx.Clone())
+	}
+	if !bytes.Equal(merkle.CalcMerkleRoot(n.cfg, d.Height, d.Txs), b.TxHash) {
+		out.Stat("node_duptail_root_differs", 1)
+		return
+	}
+	out.Stat("node_duptail_blocks_same_txhash", 1)
+	before := n.mock.GetBlockChain().GetBlockHeight()
+	var main bool
+	var err error
+	if gen.Guard(func() string { main, err = n.deliver(d); return "" }) == "panic" {
+		out.Pred("C18|ProcessBlock|panic-on-duplicated-tail-block", fmt.Sprintf("height=%d txs=%d repeated=%d", b.Height, cnt, k))
+		return
+	}
+	after := n.mock.GetBlockChain().GetBlockHeight()
+	if err == nil || main || after != before {
+		out.Pred("C18|ProcessBlock|duplicated-tail-block-accepted", fmt.Sprintf("height=%d txs=%d repeated=%d main=%v err=%v", b.Height, cnt, k, main, err))
+		return
+	}
+	out.Stat("node_duptail_rejected_"+strings.ReplaceAll(err.Error(), " ", "_"), 1)
+}
+
 func order(txs []*types.Transaction) string {
 	var s []string
 	for _, tx := range txs {
@@ -251,6 +285,7 @@ func runNode() {
 			out.Stat("node_mint_failed", 1)
 			continue
 		}
+		n.tryDuplicatedTail(b)
 		main, err := n.deliver(b)
 		if err != nil || !main {
 			out.Stat("node_blocks_rejected_"+kind, 1)
